@@ -447,6 +447,21 @@ func genC11Splice(t *rapid.T) *C11Splice {
 		// any token boundary, the very end included; never directly in front of a
 		// separator's neighbour inside a string (tokens are atomic, so no such place exists)
 		at := rapid.IntRange(0, len(r.Toks)).Draw(t, "boundary")
+		if rapid.IntRange(0, 3).Draw(t, "afterkeyword") == 0 {
+			// directly after a statement that is one control keyword (the next token starts a new line)
+			var cands []int
+			for i, tk := range r.Toks {
+				switch tk.Text {
+				case "next", "exit", "break", "continue", "return":
+					if tk.Kind == ast.TWord && i+1 < len(r.Toks) && r.Toks[i+1].Kind == ast.TSep {
+						cands = append(cands, i+2)
+					}
+				}
+			}
+			if len(cands) > 0 {
+				at = cands[rapid.IntRange(0, len(cands)-1).Draw(t, "kwboundary")]
+			}
+		}
 		toks = insertToks(r, at, raw(ch))
 		recipe += ":" + fmt.Sprintf("%q", ch)
 	case "stray-token":
